@@ -780,11 +780,11 @@ def skew_gpos(r, gpos, stat):
     for lk in gpos["lookups"]:
         for st in lk["subtables"]:
             t = lk["type"]
-            if not isinstance(st, dict) or not r.chance(1, 3):
+            if not isinstance(st, dict) or not r.chance(1, 2 if t == 5 else 3):
                 continue
             if t in (4, 5, 6):
                 key = {4: "bases", 5: "ligs", 6: "mark2"}[t]
-                how = r.below(8)
+                how = r.choice([0, 1, 2, 3, 4, 5, 6, 6, 6, 6, 7]) if t == 5 else r.below(8)
                 if how == 0: st["class_count"] += 1; note("class-count+1")
                 elif how == 1: st["class_count"] = max(0, st["class_count"] - 1); note("class-count-1")
                 elif how == 2 and st[key]: st[key] = st[key][:-1]; note("matrix-shorter-than-coverage")
@@ -794,11 +794,15 @@ def skew_gpos(r, gpos, stat):
                     i = r.below(len(st["marks"]))
                     st["marks"][i] = (st["class_count"] + r.below(2), st["marks"][i][1]); note("mark-class-past-class-count")
                 elif how == 6 and t == 5 and st[key]:
-                    i = r.below(len(st[key]))
-                    nc = r.choice([0, 1, 1, 4, 15, 16, 17])
+                    # the component count of every ligature (or of one) is redrawn: none at all, one, more than any ligature id
+                    # can number (component numbers have 4 bits)
                     k = max(1, st["class_count"])
-                    st[key][i] = [[(r.range(-200, 200), r.range(-200, 200)) for _ in range(k)] for _ in range(nc)]
-                    note(f"ligature-components:{nc}")
+                    one = r.below(len(st[key])) if r.chance(1, 3) else None
+                    for i in range(len(st[key])):
+                        if one is not None and i != one: continue
+                        nc = r.choice([0, 0, 1, 1, 4, 15, 16, 17])
+                        st[key][i] = [[(r.range(-200, 200), r.range(-200, 200)) for _ in range(k)] for _ in range(nc)]
+                        note(f"ligature-components:{nc}")
                 elif st[key]:
                     i = r.below(len(st[key]))
                     st[key][i] = [[None] * max(1, st["class_count"])] if t == 5 else [None] * max(1, st["class_count"])
